@@ -108,7 +108,7 @@ Definition dbp_new (bits : N) (buf : list N) : outcome dbp :=
   '(total, b3) <- vlq_decode b2 ;;
   '(fz, b4) <- vlq_decode b3 ;;
   first <- opt_err (from_i64 bits (zigzag_decode fz)) ;;
-  if mbc =? 0 then Panic else
+  if mbc =? 0 then Err else            (* `miniblock count is zero` error since 20ef7d280 (was block_size / 0) *)
   let s := mk_dbp b4 mbc total (total - 1) (repeat 0 (N.to_nat mbc)) 0 0 (block / mbc) 0 first (0 <? total) 0 0 in
   if 1 <? total then dbp_load bits s else Ok s.
 
@@ -121,7 +121,7 @@ Fixpoint dbp_accum (bits : N) (mn prev : N) (ds : list N) : list N * N :=
   end.
 
 (* the `while out_idx < out.len() && self.values_remaining > 0` loop; cap = out.len() - out_idx.
-   `values_remaining -= 1` underflows (overflow-checked build: panic) when more deltas are
+   `values_remaining.checked_sub(1)` fails (error; before c80d6338b: underflow panic) when more deltas are
    unpacked than remain.  Every iteration unpacks at least one delta when values_per_mini_block > 0,
    so fuel = cap suffices (with values_per_mini_block = 0 the real loop never terminates: Err here). *)
 Fixpoint dbp_go (bits : N) (fuel : nat) (cap : nat) (s : dbp) : outcome (list N * dbp) :=
@@ -140,7 +140,7 @@ Fixpoint dbp_go (bits : N) (fuel : nat) (cap : nat) (s : dbp) : outcome (list N 
              else Ok s1) ;;
       let count := Nat.min cap (N.to_nat (d_per s2 - d_mb_val s2)) in
       '(raw, buf1, pos1) <- bit_unpack bits (d_w s2) count (d_buf s2) (d_pos s2) ;;
-      if d_rem s2 <? N.of_nat count then Panic else
+      if d_rem s2 <? N.of_nat count then Err else     (* values_remaining.checked_sub(1) since c80d6338b (was an underflow panic) *)
       let '(vs, last) := dbp_accum bits (d_min s2) (d_prev s2) raw in
       let mv := d_mb_val s2 + N.of_nat count in
       let s3 := mk_dbp buf1 (d_mbc s2) (d_total s2) (d_rem s2 - N.of_nat count) (d_widths s2)
